@@ -20,7 +20,7 @@ Import-free apart from the shared structural sort.
 import SkVerif.Model.Sort
 namespace SkVerif.C16
 
-inductive Err | value | type | other
+inductive Err | value | type | other | key
   deriving DecidableEq, Repr
 
 /-! ## Positional selection of instances (`X[idx]`, `X.iloc[idx]`) -/
@@ -191,6 +191,47 @@ def resetIndex {β : Type} (F : List (Int × β)) : List (Int × β) := freshLab
 def unionFreshKept {α β : Type} (fa fb : α → β) (labels : List Int) (X : List α) :
     Except Err (List (Option β × Option β)) :=
   concat2 (resetIndex (freshLabels (X.map fa))) (resetIndex (labels.zip (X.map fb)))
+
+
+/-! ## Cells read by LABEL (known finding: DerivativeSlopeTransformer) and integer-typed cells (SlopeTransformer) -/
+
+def lookupCell (labels : List Int) (vals : List Rat) (l : Int) : Except Err Rat :=
+  match labels, vals with
+  | k :: ls, v :: vs => if k == l then .ok v else lookupCell ls vs l
+  | _, _ => .error .key
+
+/-- `((x[i] - x[i-1]) + (x[i+1] - x[i-1]) / 2) / 2` with `x[...]` supplied by `get` -/
+def derAt (get : Int → Except Err Rat) (i : Int) : Except Err Rat := do
+  let a ← get (i - 1)
+  let b ← get i
+  let c ← get (i + 1)
+  pure (((b - a) + (c - a) / 2) / 2)
+
+/-- `DerivativeSlopeTransformer.row_wise_get_der.get_der(x)`: `x` is the cell Series and `x[i]` looks the
+LABEL `i` up in its index (`for i in range(1, len(x) - 1)`); the first and last value are repeated -/
+def getDerByLabel (labels : List Int) (vals : List Rat) : Except Err (List Rat) := do
+  let der ← (List.range (vals.length - 2)).mapM (fun (k : Nat) => derAt (lookupCell labels vals) (Int.ofNat k + 1))
+  pure ((der.head?.toList ++ der) ++ der.getLast?.toList)
+
+/-- positional access `x.iloc[i]` / `arr[i]` for `0 ≤ i < len` -/
+def cellAt (vals : List Rat) (i : Int) : Except Err Rat :=
+  if i < 0 then .error .key else match vals[i.toNat]? with | some v => .ok v | none => .error .key
+
+/-- the same formula on positions (what a 3-D array of the same numbers gets) -/
+def getDerByPosition (vals : List Rat) : Except Err (List Rat) := do
+  let der ← (List.range (vals.length - 2)).mapM (fun (k : Nat) => derAt (cellAt vals) (Int.ofNat k + 1))
+  pure ((der.head?.toList ++ der) ++ der.getLast?.toList)
+
+/-- the default index `k, k+1, …` of a cell Series -/
+def labelsFrom (k : Int) : Nat → List Int
+  | 0 => []
+  | n + 1 => k :: labelsFrom (k + 1) n
+
+/-- `statistics.mean(Y)` hands the mean back in the type of the data: for numpy integers the exact mean is
+truncated towards zero (`np.int32(Fraction(3, 2)) == 1`); `SlopeTransformer._get_gradient` uses it -/
+def meanAsStored (intTyped : Bool) (ys : List Rat) : Rat :=
+  let m := ys.sum / (ys.length : Rat)
+  if intTyped then ((if m < 0 then -((-m).floor) else m.floor : Int) : Rat) else m
 
 /-! ## Pipelines -/
 
